@@ -124,6 +124,19 @@ fn handle(req: &Value) -> Value {
             }
             json!({ "results": out })
         }
+        // a history: the requests of `seq` one after the other on THIS thread (thread-local or process-wide state that one
+        // run leaves behind is seen by the next); returns every result
+        "transpile_seq" => {
+            let empty = vec![];
+            let mut out = vec![];
+            for r in req["seq"].as_array().unwrap_or(&empty) {
+                let files = files_of(r);
+                let dir = PathBuf::from(r["dir"].as_str().unwrap_or(""));
+                let annotate = r["annotate"].as_bool().unwrap_or(false);
+                out.push(guarded(move || transpile_once(&files, &dir, annotate)));
+            }
+            json!({ "results": out })
+        }
         // `t` threads, each `k` repeats of the same request, run concurrently.
         "transpile_mt" => {
             let files = files_of(req);
